@@ -364,6 +364,39 @@ def check_fragment_unchanged():
     return fails
 
 
+def detached_metadata_cases():
+    """B whose node-handle metadata dicts are detached from the node data (loaded from JSON and
+    annotated afterwards; metadata dict replaced wholesale)."""
+    import json as _json
+
+    from hugr.hugr import Hugr
+
+    def loaded_then_annotated():
+        d, _, _ = builder_cases()[0][2]()
+        B = Hugr.load_json(d.hugr.to_json())
+        B[B.root].metadata["name"] = "loaded-root"
+        for n in list(B)[1:3]:
+            B[n].metadata["late"] = [n.idx, "é"]
+        return B
+
+    def replaced_dict():
+        d, _, _ = builder_cases()[0][2]()
+        B = d.hugr
+        for n in list(B)[:3]:
+            B[n].metadata = {"replaced": n.idx}
+        return B
+
+    fails = []
+    n = 0
+    for name, mk in (("loaded-then-annotated", loaded_then_annotated), ("metadata-dict-replaced", replaced_dict)):
+        for hname, hf in hosts():
+            for par in [x.idx for x in hf()]:
+                n += 1
+                for sig, msg in check_insert(mk(), hf(), par, f"B={name} host={hname} parent={par}"):
+                    fails.append((f"{sig}:{name}", msg))
+    return fails, n
+
+
 def run(tier: str, seed: int) -> Result:
     global _M
     col = Collector()
@@ -380,6 +413,10 @@ def run(tier: str, seed: int) -> Result:
             col.add(sig, msg, {"builder": name})
     for sig, msg in check_fragment_unchanged():
         col.add(sig, msg, {"builder": "fragment-unchanged"})
+    dfails, n_det = detached_metadata_cases()
+    for sig, msg in dfails:
+        col.add(sig, msg, {"builder": "detached-metadata"})
+    n_pairs += n_det
     col.sample({"B-history": hists[len(hists) // 2], "hosts": [h for h, _ in hosts()]})
     col.sample({"builder_case": bc[1][0]})
     cov = {
@@ -405,6 +442,8 @@ def replay(case) -> list[Violation]:
     if "builder" in case:
         if case["builder"] == "fragment-unchanged":
             return [Violation(s, m, case) for s, m in check_fragment_unchanged()]
+        if case["builder"] == "detached-metadata":
+            return [Violation(s, m, case) for s, m in detached_metadata_cases()[0]]
         for name, thunk, ff, rf in builder_cases():
             if name == case["builder"]:
                 return [Violation(s, m, case) for s, m in check_builder_case(name, thunk, ff, rf)]
